@@ -28,12 +28,13 @@ const (
 var torigin *lib.Origin
 
 type stacking struct {
-	name      string
-	pp, tls   bool
-	mitm      bool
-	idleOnly  bool // idle-timeout is the only configured limit (read-header-timeout 0)
-	longIdle  bool // idle-timeout 30 s and no read-header-timeout: only the PROXY header limit is short
-	cli, ctrl *lib.CLI
+	name       string
+	pp, tls    bool
+	mitm       bool
+	idleOnly   bool   // idle-timeout is the only configured limit (read-header-timeout 0)
+	longIdle   bool   // idle-timeout 30 s and no read-header-timeout: only the PROXY header limit is short
+	writeLimit string // --write-limit of the listener (what it accepts from all clients together)
+	cli, ctrl  *lib.CLI
 }
 
 var ppHeader = []byte("PROXY TCP4 198.51.100.7 127.0.0.1 40000 3128\r\n")
@@ -165,6 +166,9 @@ func startStacking(run *lib.Run, s *stacking, origin *lib.Origin, ca *lib.CA) er
 	if s.longIdle {
 		args[7], args[9] = "30s", "0s"
 	}
+	if s.writeLimit != "" {
+		args = append(args, "--write-limit", s.writeLimit)
+	}
 	if s.pp {
 		args = append(args, "--proxy-protocol-listener", "--proxy-protocol-read-header-timeout", "2500ms")
 	}
@@ -208,6 +212,14 @@ func main() {
 	ppLong := &stacking{name: "pp-long-idle", pp: true, longIdle: true}
 	if err := startStacking(run, ppLong, origin, ca); err != nil {
 		run.Inconclusive("start " + ppLong.name + ": " + err.Error())
+		run.Finish()
+		return
+	}
+	// a listener with a write limit: the limiter is shared by all its connections, stalled or not
+	// (this stacking takes part in the non-interference cases only)
+	wl := &stacking{name: "plain-write-limit", writeLimit: "16K"}
+	if err := startStacking(run, wl, origin, ca); err != nil {
+		run.Inconclusive("start " + wl.name + ": " + err.Error())
 		run.Finish()
 		return
 	}
@@ -322,8 +334,8 @@ func main() {
 	lateHeads(run, hb, stackings, hello, len(cases)+50)
 	slowOrigin(run, hb, stackings, hello, len(cases))
 	progressing(run, hb, stackings, hello, len(cases)+200)
-	nonInterference(run, hb, stackings, hello, len(cases)+100)
-	for _, s := range append([]*stacking{ppLong}, stackings...) {
+	nonInterference(run, hb, append(append([]*stacking(nil), stackings...), wl), hello, len(cases)+100)
+	for _, s := range append([]*stacking{ppLong, wl}, stackings...) {
 		for _, c := range []*lib.CLI{s.cli, s.ctrl} {
 			if !c.Alive() {
 				run.Violation("process-died:"+s.name, "child exited: "+lib.Trunc(c.Output(), 1500), -1, nil)
@@ -640,13 +652,24 @@ func nonInterference(run *lib.Run, hb *lib.Heartbeat, ss []*stacking, hello []by
 			// K peers stalled before sending anything (the phase in which the listener layers wait)
 			var peers []net.Conn
 			closedEarly := make(chan struct{}, k)
+			var trickled sync.WaitGroup
 			for i := 0; i < k; i++ {
 				c, err := net.DialTimeout("tcp", s.cli.ProxyAddr, 5*time.Second)
 				if err != nil {
 					continue
 				}
 				peers = append(peers, c)
+				trickled.Add(1)
 				go func(c net.Conn) {
+					if s.writeLimit != "" {
+						// these peers send the beginning of a request head one octet at a time before
+						// they stall: a few dozen octets in all against a limit of 16 KiB/s
+						for j := 0; j < 24; j++ {
+							c.Write([]byte(reqHead[j : j+1]))
+							time.Sleep(time.Millisecond)
+						}
+					}
+					trickled.Done()
 					b := make([]byte, 1)
 					c.SetReadDeadline(time.Now().Add(20 * time.Second))
 					if _, err := c.Read(b); err == io.EOF || err != nil {
@@ -654,6 +677,7 @@ func nonInterference(run *lib.Run, hb *lib.Heartbeat, ss []*stacking, hello []by
 					}
 				}(c)
 			}
+			trickled.Wait()
 			time.Sleep(100 * time.Millisecond)
 			t0 := time.Now()
 			cd, cok := probeOnce(s, s.ctrl, hello)
